@@ -254,8 +254,9 @@ end Examples
 
 end EmfRefine
 
-#print axioms EmfRefine.dimKeyOf_eq_sortKey
+#print axioms EmfRefine.finishErrors_refines
 #print axioms EmfRefine.emf_refines_spec_validate
 #print axioms EmfRefine.emf_refines_spec_class
+#print axioms EmfRefine.emit_noSplit
 #print axioms EmfRefine.emf_refines_spec_global_partial
 #print axioms EmfRefine.emf_refines_spec_global_reachable_partial
